@@ -20,6 +20,8 @@ func sqlDriver(args []string) error {
 		return sqlC06(args[1:])
 	case "c03":
 		return sqlC03(args[1:])
+	case "replay":
+		return sqlReplay(args[1:])
 	case "c10walk":
 		return sqlC10Walk(args[1:])
 	case "c09":
